@@ -147,7 +147,6 @@ func c06Sess(f []string) string {
 	s.Phase = ppp.PhaseAuthenticate
 	s.startNCP()
 	var parts []string
-	parts = append(parts, "a="+c06ShowAddr(s.IPv4Address)+" pa="+c06ShowAddr(s.ipcp.PeerConfig().PeerAddress))
 	var lastReq *c06Pkt
 	drain := func() string {
 		var acts []string
@@ -156,7 +155,7 @@ func c06Sess(f []string) string {
 			switch p.code {
 			case ppp.ConfReq:
 				lastReq = &bus.ipcp[i]
-				acts = append(acts, "scr")
+				acts = append(acts, "scr:"+c06ShowWire(p.data))
 			case ppp.ConfAck:
 				acts = append(acts, fmt.Sprintf("sca:%d:%s", p.id, c06ShowWire(p.data)))
 			case ppp.ConfNak:
@@ -175,9 +174,11 @@ func c06Sess(f []string) string {
 		}
 		return strings.Join(acts, " ")
 	}
-	if a := drain(); a != "scr" {
-		return "start:" + a
+	first := drain()
+	if !strings.HasPrefix(first, "scr:") || strings.Contains(first, " ") {
+		return "start:" + first
 	}
+	parts = append(parts, first+" a="+c06ShowAddr(s.IPv4Address)+" pa="+c06ShowAddr(s.ipcp.PeerConfig().PeerAddress))
 	for _, ev := range f[1:] {
 		switch {
 		case ev == "k":
@@ -185,6 +186,13 @@ func c06Sess(f []string) string {
 				return "noreq"
 			}
 			s.ipcp.FSM().Input(ppp.ConfAck, lastReq.id, lastReq.data)
+		case ev[0] == 'a' || ev[0] == 'n' || ev[0] == 'j':
+			// answer to our last Configure-Request with arbitrary contents
+			if lastReq == nil {
+				return "noreq"
+			}
+			code := map[byte]uint8{'a': ppp.ConfAck, 'n': ppp.ConfNak, 'j': ppp.ConfRej}[ev[0]]
+			s.ipcp.FSM().Input(code, lastReq.id, c06Bytes(ev[1:]))
 		case ev[0] == 'q':
 			i := strings.IndexByte(ev, '.')
 			id, _ := strconv.Atoi(ev[1:i])
